@@ -46,6 +46,19 @@ def pinned_override(pid, tier, cov, te, expected, invariants=(), properties=()):
         te.append('anti-vacuity: override3 with OverrideStale should violate %s, TLC says %s' % (expected, r.violated or r.error))
 
 
+def pinned_keepcsum(pid, tier, cov, te):
+    """anti-vacuity for fix 494d449: with the checksum of a hand-edited / adopted file kept (KeepCsum) TLC must find the old
+    Fresh counterexample on program stamp_override"""
+    import histories
+    p = dict([x for x in programs.deep_programs() if x['name'] == 'stamp_override'][0], keep_csum=True)
+    d = common.workdir('%s_%s_pinned_csum' % (pid, tier))
+    r, _ = histories.gen_histories(p, d, max_hist=5, max_cmds=3, invariants=['Fresh'], workers=4)
+    cov.setdefault('pinned_counterexamples', []).append(
+        {'program': 'stamp_override', 'switch': 'KeepCsum', 'expected': 'Fresh', 'found': r.violated})
+    if r.violated != 'Fresh':
+        te.append('anti-vacuity: stamp_override with KeepCsum should violate Fresh, TLC says %s' % (r.violated or r.error))
+
+
 def c01(tier):
     family = programs.all_programs() + programs.deep_programs()
     v, cov, te, wall = syscheck.run_family(
@@ -54,6 +67,7 @@ def c01(tier):
         required_actions=['StartBuild', 'EndBuild', 'UserWrite', 'UserRemove', 'DoEdit'],
         note='Fresh: after every command that exits 0 every file in the closure of the requested targets '
              'equals the from-scratch value Ideal(n) computed from the program and the current sources')
+    pinned_keepcsum('C01', tier, cov, te)
     return finish('C01', tier, v, cov, te, wall)
 
 
@@ -70,13 +84,14 @@ def c02(tier):
 
 
 def c03(tier):
-    family = fam(['stamped1plain', 'stamped1always', 'stamped2plain', 'stamped_nested', 'stamp_toggle', 'stamped_deep', 'stamp_diamond', 'stamp_chain2'])
+    family = fam(['stamped1plain', 'stamped1always', 'stamped2plain', 'stamped_nested', 'stamp_toggle', 'stamped_deep', 'stamp_diamond', 'stamp_chain2', 'stamp_override'])
     v, cov, te, wall = syscheck.run_family(
         'C03', tier, family, ['Fresh', 'NoUnderBuild', 'NoDupRun'], ['NoOverBuild'],
         {'rc', 'ran', 'file', 'row.csum', 'row.changed', 'row.checked'},
         bounds(tier, (4, 3), (6, 4)), sample_n=None if tier == 'thorough' else 80,
         note='checksummed targets at depth 1..2 under plain/always/checksummed dependents; u is declared but '
              'ignored by mid (edit invisible to the checksum), s is read (edit visible)')
+    pinned_keepcsum('C03', tier, cov, te)
     return finish('C03', tier, v, cov, te, wall)
 
 
@@ -91,7 +106,7 @@ def c05(tier):
 
 
 def c11(tier):
-    family = fam(['roles', 'defaults', 'chain', 'override2', 'override3'])
+    family = fam(['roles', 'defaults', 'chain', 'override2', 'override3', 'stamp_override'])
     v, cov, te, wall = syscheck.run_family(
         'C11', tier, family, ['Fresh'], ['NoTrample'],
         {'rc', 'file', 'row.gen', 'row.ovr', 'ran'},
